@@ -12,7 +12,7 @@ fn main() {
     for needed in ["AtomicBool", "Ordering", "SyncSender as Sender", "Arc", "Mutex", "thread::{self, JoinHandle}"] {
         assert!(block.contains(needed), "debugger lib.rs import block no longer mentions `{needed}`; the shim rewrite must be revisited");
     }
-    let replacement = "use std::{collections::HashSet, fs::File, io::{self, Read}, path::Path};\nuse crate::shim::{thread::{self, JoinHandle}, Arc, AtomicBool, Mutex, Ordering, Sender};";
+    let replacement = "use std::{collections::HashSet, fs::File, io::{self, Read}, path::Path};\n#[allow(unused_imports)]\nuse crate::shim::{thread::{self, JoinHandle}, Arc, AtomicBool, AtomicI32, AtomicI64, AtomicIsize, AtomicU32, AtomicU64, AtomicUsize, Mutex, Ordering, Sender};";
     // everything before the import block is the licence header, crate docs and inner attributes,
     // none of which can be included below the crate root
     assert!(src[..start].lines().all(|l| { let t = l.trim(); t.is_empty() || t.starts_with("//") || t.starts_with("#![") || t.starts_with("html_") || t == ")]" }), "debugger lib.rs has items before its import block");
